@@ -7,7 +7,7 @@ use std::{borrow::Cow, fmt};
 use bytes::BufMut;
 use ruma_common::{
     api::{error::IntoHttpError, EndpointError, OutgoingResponse},
-    serde::{from_raw_json_value, JsonObject, StringEnum},
+    serde::{from_raw_json_value, JsonObject, OrdAsRefStr, PartialOrdAsRefStr, StringEnum},
     thirdparty::Medium,
     OwnedClientSecret, OwnedSessionId, OwnedUserId,
 };
@@ -233,7 +233,7 @@ impl<'de> Deserialize<'de> for AuthData {
 
 /// The type of an authentication stage.
 #[doc = include_str!(concat!(env!("CARGO_MANIFEST_DIR"), "/src/doc/string_enum.md"))]
-#[derive(Clone, PartialEq, Eq, PartialOrd, Ord, StringEnum)]
+#[derive(Clone, PartialEq, Eq, PartialOrdAsRefStr, OrdAsRefStr, StringEnum)]
 #[non_exhaustive]
 pub enum AuthType {
     /// Password-based authentication (`m.login.password`).
